@@ -3,9 +3,12 @@
 //! Drives the public `delaney2d::toroidal_cover` and `delaney3d::pseudo_toroidal_cover`.
 //!
 //!   tor2        IN sym                          OUT cover | PANIC
-//!   ptc         IN sym                          OUT 0 | 1 cover | PANIC          (model compared)
-//!   ptc_corpus  IN sym                          OUT as ptc; Spec also demands a cover
-//!   ptc_nomodel IN sym                          OUT as ptc; Spec only (variants of sampled symbols)
+//!   ptc         IN h sym                        OUT 0 | 1 cover | PANIC          (model compared;
+//!                                               h = 1 iff the decidable hypotheses of the
+//!                                               phase-2 theorems hold for the library's
+//!                                               presentation of the oriented cover)
+//!   ptc_corpus  IN h sym                          OUT as ptc; Spec also demands a cover
+//!   ptc_nomodel IN h sym                          OUT as ptc; Spec only (variants of sampled symbols)
 //!   ptcinv      IN k sym ren_1 … ren_k dual     OUT one integer per variant: -2 panic, -1 None,
 //!                                                else the size of the returned cover
 //!
@@ -18,6 +21,8 @@
 use rust_dsymbols::covers::covers;
 use rust_dsymbols::delaney2d::toroidal_cover;
 use rust_dsymbols::delaney3d::pseudo_toroidal_cover;
+use rust_dsymbols::derived::oriented_cover;
+use rust_dsymbols::fundamental_group::fundamental_group;
 use rust_dsymbols::dsets::DSet;
 use std::panic::{catch_unwind, AssertUnwindSafe};
 use verif_harness::d3gen::{classes, corpus, euclidean_2d, is_oriented, labelled, parse_symbol, symbols_3d};
@@ -34,6 +39,21 @@ fn ptc_answer(s: &Tab) -> Option<Tab> {
     pseudo_toroidal_cover(&s.to_partial_dsym()).map(|c| Tab::from_dsym(&c))
 }
 
+/// the decidable hypotheses of the theorems of Props/C15 §4–§6 on the library's own presentation
+/// of the oriented cover: relators and cone words over the letters ±1..±n.  Statistics only (tag `groupok=`); the Lean driver re-evaluates the same
+/// monitor on the model's run and a disagreement is a harness error.
+fn group_ok(s: &Tab) -> bool {
+    catch_unwind(AssertUnwindSafe(|| {
+        let oc = oriented_cover(&s.to_partial_dsym());
+        let fg = fundamental_group(&oc);
+        let n = fg.nr_generators() as isize;
+        let in_range = |w: &Vec<isize>| w.iter().all(|&x| x != 0 && x.abs() <= n);
+        fg.relators.iter().all(|r| in_range(&r.iter().cloned().collect()))
+            && fg.cones.iter().all(|(c, _)| in_range(&c.iter().cloned().collect()))
+    }))
+    .unwrap_or(false)
+}
+
 fn ptc(ctx: &mut Ctx, op: &str, s: &Tab, extra: &str) {
     if !ctx.peek_mine() {
         ctx.skip();
@@ -41,12 +61,13 @@ fn ptc(ctx: &mut Ctx, op: &str, s: &Tab, extra: &str) {
     }
     // tag needs the answer: computed once here (panics caught), again inside the case
     let found = catch_unwind(AssertUnwindSafe(|| pseudo_toroidal_cover(&s.to_partial_dsym()).map(|c| c.size())));
+    let gok = if group_ok(s) { 1 } else { 0 };
     let tag = match &found {
-        Ok(Some(n)) => format!("nt dim=3 size={} found=1 sheets={} {}", s.size, n / s.size, extra),
-        Ok(None) => format!("dim=3 size={} found=0 {}", s.size, extra),
-        Err(_) => format!("nt dim=3 size={} found=panic {}", s.size, extra),
+        Ok(Some(n)) => format!("nt dim=3 size={} found=1 sheets={} groupok={} {}", s.size, n / s.size, gok, extra),
+        Ok(None) => format!("dim=3 size={} found=0 groupok={} {}", s.size, gok, extra),
+        Err(_) => format!("nt dim=3 size={} found=panic groupok={} {}", s.size, gok, extra),
     };
-    ctx.case(op, &tag, || s.enc(), || match ptc_answer(s) {
+    ctx.case(op, &tag, || format!("{} {}", gok, s.enc()), || match ptc_answer(s) {
         Some(c) => format!("1 {}", c.enc()),
         None => "0".to_string(),
     });
